@@ -220,7 +220,6 @@ type c11Stats struct {
 	logTypes                                map[string]int64
 	writeOK                                 map[string]int64 // path/kind -> successes checked
 	soft                                    map[string]int64
-	samples                                 *ev.Samples
 }
 
 type c11Viol struct {
@@ -250,8 +249,8 @@ func seqBehind(ctx context.Context, pg *pgsim.DB, name string, maxTx, maxLog uin
 }
 
 // runC11History executes one source history and every oracle; it returns the
-// violations in a deterministic order.
-func runC11History(ctx context.Context, boot *pgsim.DB, L c11Ledgers, path []lx.Op, st *c11Stats, fullWrites bool) ([]c11Viol, error) {
+// violations in a deterministic order. sink (optional) receives a one-line summary.
+func runC11History(ctx context.Context, boot *pgsim.DB, L c11Ledgers, path []lx.Op, st *c11Stats, sink func(map[string]any)) ([]c11Viol, error) {
 	var viols []c11Viol
 	add := func(sig, what string, extra map[string]any) {
 		rp := map[string]any{"ledgers": L.Specs, "history": path}
@@ -398,9 +397,6 @@ func runC11History(ctx context.Context, boot *pgsim.DB, L c11Ledgers, path []lx.
 				if _, ok := toBulkElement(wop); !ok && v.path != pathSingle {
 					continue
 				}
-				if !fullWrites && v.n == 2 && i > 2 {
-					continue
-				}
 				ops := []lx.Op{wop}
 				if v.n == 2 {
 					ops = append(ops, c11Filler)
@@ -468,7 +464,9 @@ func runC11History(ctx context.Context, boot *pgsim.DB, L c11Ledgers, path []lx.
 	st.mu.Lock()
 	st.transitions += transitions
 	st.mu.Unlock()
-	st.samples.Add(map[string]any{"history": opNames(path), "exported_logs": len(logs), "copies_imported": len(imported), "violations": len(viols)})
+	if sink != nil {
+		sink(map[string]any{"history": opNames(path), "exported_logs": len(logs), "copies_imported": len(imported), "violations": len(viols)})
+	}
 	return viols, nil
 }
 
@@ -499,7 +497,7 @@ func runC11(r *ev.Run) (ev.Coverage, []string) {
 	ctx := context.Background()
 	assumptions := []string{pgsimAssumption}
 	L := c11Setup()
-	boot, err := lx.Boot(ctx, L.Specs)
+	boot, err := bootLedgers(ctx, L.Specs)
 	if err != nil {
 		r.EngineError("boot: " + err.Error())
 		return nil, assumptions
@@ -507,16 +505,18 @@ func runC11(r *ev.Run) (ev.Coverage, []string) {
 	alpha := c11Alphabet()
 	depth := ev.Pick(r, 2, 3)
 	seqs := sequences(len(alpha), depth)
-	st := &c11Stats{states: map[string]bool{}, logTypes: map[string]int64{}, writeOK: map[string]int64{}, soft: map[string]int64{}, samples: ev.NewSamples(5)}
+	st := &c11Stats{states: map[string]bool{}, logTypes: map[string]int64{}, writeOK: map[string]int64{}, soft: map[string]int64{}}
 	restore := quietStdout()
 	results := make([][]c11Viol, len(seqs))
 	ran := make([]bool, len(seqs))
+	// samples: the first histories of the enumeration and the first of the last depth
+	sampleOf := make([]map[string]any, len(seqs))
 	done := parallel(r, len(seqs), func(i int) {
 		path := make([]lx.Op, len(seqs[i]))
 		for k, x := range seqs[i] {
 			path[k] = alpha[x]
 		}
-		v, err := runC11History(ctx, boot, L, path, st, true)
+		v, err := runC11History(ctx, boot, L, path, st, func(m map[string]any) { sampleOf[i] = m })
 		if err != nil {
 			r.EngineError(fmt.Sprintf("history %v: %v", opNames(path), err))
 			return
@@ -555,6 +555,12 @@ func runC11(r *ev.Run) (ev.Coverage, []string) {
 			r.EngineError("vacuous: no post-import write succeeded through the single path")
 		}
 	}
+	samples := []any{}
+	for _, i := range []int{0, 1, 2, len(alpha), len(seqs) - 1} {
+		if i >= 0 && i < len(seqs) && sampleOf[i] != nil {
+			samples = append(samples, sampleOf[i])
+		}
+	}
 	var soft []string
 	for k, n := range st.soft {
 		soft = append(soft, fmt.Sprintf("%s differs in %d histories (not named by the property: observation only)", k, n))
@@ -564,7 +570,7 @@ func runC11(r *ev.Run) (ev.Coverage, []string) {
 		"states":                           len(st.states),
 		"transitions":                      st.transitions,
 		"traces_validated_against_impl":    st.histories,
-		"samples":                          st.samples.List(),
+		"samples":                          samples,
 		"alphabet":                         len(alpha),
 		"depth_target":                     depth,
 		"depth_completed":                  depthDone,
